@@ -14,7 +14,7 @@ import numpy as np
 ID = 'C05'
 TITLE = 'Poses form a rigid-transform group'
 GEN = ['RotMat']
-RULE = ('cases are op in {rot, compose(1..6 poses), inverse, transform(Nx3|Nx6)} over quaternions drawn from {unit, scaled '
+RULE = ('cases are op in {rot, compose(1..6 poses), inverse, transform(Nx3|Nx6), hist (a history of inverse / rescale-in-place / compose over a pool of pose objects)} over quaternions drawn from {unit, scaled '
         '1e-3..1e3, near-180-degree, axis-aligned, random} and translations up to 1e6; distinct non-trivial = distinct '
         '(op, quaternion classes, chain length, point columns) with at least one non-axis-aligned rotation')
 ASSUMPTIONS = [
@@ -137,6 +137,24 @@ def cases(rng, tier):
             c, p = gen_pose(rng)
             pts, cols = gen_points(rng)
             out.append({'op': 'transform', 'pose': p, 'points': pts, 'cols': cols, 'cls': [c]})
+    # histories over pose OBJECTS: inverse / compose results join a pool, rescale changes one object in place; at the end
+    # every object is read back and inverted once more
+    for _ in range(n // 12):
+        pool = [gen_pose(rng) for _ in range(rng.randint(1, 3))]
+        steps, size = [], len(pool)
+        for _ in range(rng.randint(2, 7)):
+            kind = rng.choice(['inverse', 'inverse', 'rescale', 'rescale', 'compose'])
+            if kind == 'inverse':
+                steps.append(['inverse', rng.randrange(size)])
+                size += 1
+            elif kind == 'rescale':
+                steps.append(['rescale', rng.randrange(size), H(rng.choice([2.0, 0.5, -1.0, 3.0, 1e-3, 1e3]))])
+            else:
+                # two or three poses: compose([p]) returns p ITSELF (an alias, not a copy: recorded in DESIGN.md, not findings),
+                # which a value model of the pool does not describe
+                steps.append(['compose', [rng.randrange(size) for _ in range(rng.randint(2, 3))]])
+                size += 1
+        out.append({'op': 'hist', 'pool': [p for _, p in pool], 'cls': [c for c, _ in pool], 'steps': steps})
     return out
 
 
@@ -183,12 +201,30 @@ def run_impl(c):
             pts = np.array([[F(h) for h in row] for row in c['points']], dtype=float).reshape((-1, c['cols']))
             res = mk_pose(c['pose']).transform_points(pts)
             return {'points': [[H(v) for v in row] for row in res.tolist()]}
+        if c['op'] == 'hist':
+            return {'pool': [pose_out(p) for p in run_hist(c)]}
     except Exception as e:
         return {'error': type(e).__name__}
     return {'error': 'bad-op'}
 
 
+def run_hist(c):
+    k = kapture()
+    pool = [mk_pose(p) for p in c['pool']]
+    for st in c['steps']:
+        if st[0] == 'inverse':
+            pool.append(pool[st[1]].inverse())
+        elif st[0] == 'rescale':
+            pool[st[1]].rescale(F(st[2]))
+        else:
+            pool.append(k.PoseTransform.compose([pool[i] for i in st[1]]))
+    return pool
+
+
 def to_model(c):
+    if c['op'] == 'hist':
+        return [{'op': 'hist', 'pool': [[rat(F(h)) for h in p] for p in c['pool']],
+                 'steps': [[st[0], st[1], rat(F(st[2]))] if st[0] == 'rescale' else st for st in c['steps']]}]
     if c['op'] == 'rot':
         return [{'op': 'rot', 'q': [rat(F(h)) for h in c['q']]}]
     if c['op'] == 'compose':
@@ -232,6 +268,16 @@ def compare(c, io, mo):
             sc = max(qmag, Fraction(1, 10 ** 9)) if i < 4 else tmag
             if not close(a, b, sc):
                 return f'pose component {i}: impl {F(a)!r} model {float(unrat(b))!r} (scale {float(sc)!r})'
+        return None
+    if c['op'] == 'hist':
+        if len(io['pool']) != len(mo['pool']):
+            return f'pool size: impl {len(io["pool"])} model {len(mo["pool"])}'
+        for k_, (pa, pb) in enumerate(zip(io['pool'], mo['pool'])):
+            qm = max(Fraction(1, 10 ** 9), max(abs(unrat(x)) for x in pb[0:4]))
+            tm = max([Fraction(1)] + [abs(unrat(x)) for x in pb[4:7]]) * 10
+            for i, (a, b) in enumerate(zip(pa, pb)):
+                if not close(a, b, qm if i < 4 else tm):
+                    return f'object {k_} component {i}: impl {F(a)!r} model {float(unrat(b))!r}'
         return None
     if c['op'] == 'transform':
         if len(io['points']) != len(mo['points']):
@@ -312,6 +358,19 @@ def oracle(c):
             ii = inv.inverse()
             if not _close_pts(ii.transform_points(FRAME.copy()), p.transform_points(FRAME.copy()), tmag):
                 return {'signature': 'inverse-inverse', 'detail': 'inverse(inverse(p)) != p'}
+            return None
+        if c['op'] == 'hist':
+            # whatever happened before, every object of the pool composed with its inverse AS ASKED NOW is the identity, and
+            # asking does not change it
+            for idx, p in enumerate(run_hist(c)):
+                before = snap(p)
+                inv = p.inverse()
+                if snap(p) != before:
+                    return {'signature': 'operands-modified', 'detail': f'inverse modified object {idx}'}
+                tmag = max([1.0] + [abs(v) for v in p.t_raw]) * 10
+                e = k.PoseTransform.compose([p, inv])
+                if not _close_pts(e.transform_points(FRAME.copy()), FRAME, tmag):
+                    return {'signature': 'inverse-law', 'detail': f'object {idx} of the history composed with its inverse is not the identity'}
             return None
         if c['op'] == 'transform':
             p = mk_pose(c['pose'])
